@@ -379,11 +379,10 @@ func init() {
 		Assumptions: commonAssumptions,
 		Gen:         genC12,
 		RaceGen: func(r *Rand, tier string) *Case {
-			c := genC12(r, tier)
-			if c.Sched == nil {
-				return genC12Concurrent(r)
-			}
-			return c
+			// the race shard runs the concurrent-users scenario only (the duplex
+			// TLS connection shares harness buffers between two goroutines and is
+			// not meant for the race oracle)
+			return genC12Concurrent(r)
 		},
 		Check: checkC12,
 	})
@@ -434,6 +433,16 @@ func genC12(r *Rand, tier string) *Case {
 	if r.Chance(1, 4) {
 		return genC12Concurrent(r)
 	}
+	if r.Chance(1, 12) {
+		// CancelRequest after a successful SSL negotiation (inside TLS): decided
+		// with the TLS machinery of C11
+		for {
+			c := genC11(r, tier)
+			if c.Variant == "cancel-after-upgrade" {
+				return c
+			}
+		}
+	}
 	c := &Case{Server: ServerCfg{Limit: r.PickInt(1000, 4096, 65536)}, Programs: map[string]*Program{}}
 	if r.Chance(1, 3) {
 		c.Server.Auth = "cleartext"
@@ -462,6 +471,13 @@ func genC12Concurrent(r *Rand) *Case {
 }
 
 func checkC12(x *Exec, c *Case) ([]Violation, bool) {
+	if len(c.Conns) > 0 && c.Conns[0].TLS != nil {
+		viol, nt := checkC11(x, c)
+		for i := range viol {
+			viol[i].Prop = "C12"
+		}
+		return viol, nt
+	}
 	viol, r, _ := modelCheck("C12", x, c)
 	nt := false
 	if c.Sched != nil {
